@@ -14,6 +14,6 @@ INVARIANT HistoryFree
 INVARIANT CheckContains
 CHECK_DEADLOCK FALSE
 CONSTANTS
-  Mutant = "or_skips_falsy_result"
+  Mutant = "check_validator_some_exceptions"
   Depth = 1
   Wide = FALSE
